@@ -96,7 +96,7 @@ func c17HTTPPage(code int, body []byte, idField string) c17Page {
 
 func TestC17(t *testing.T) {
 	c := evid.New("C17")
-	c.Rule = "collections of 0-40 items, one in twelve of 101-230 items with page sizes {100,101,150,n-1,n,1000} (ids a random increasing sequence with gaps, some beyond 64 bits) x page size {1,2,3,n-1,n,n+1,100,absent} x order x optional filter (reference / one-key metadata / $not / $and with a nested $not / $or), walked through three layers: L1 bunpaginate.UsingColumn / UsingOffset on a harness table, L2 ledgerstore.GetTransactions / GetLogs / GetAccountsWithVolumes, L3 the v2 and v1 HTTP list handlers with ?cursor=. Rows are served by the harness's mini SQL engine. Oracle: following next from the first page yields the filtered collection once, in order, every page but the last full, termination; previous of page i is page i-1 and the first page has none; every statement of the walk carries the filter of the first request (the token stands for the same query). Non-trivial = a walk of >=3 pages, or with a filter, or with a backward step; distinct by (layer, list, sizes, filter, ids)."
+	c.Rule = "collections of 0-40 items, one in twelve of 101-230 items with page sizes {100,101,150,n-1,n,1000} (ids a random increasing sequence with gaps, some beyond 64 bits) x page size {1,2,3,n-1,n,n+1,100,absent} x order x optional filter (reference / one-key metadata / $not / $and with a nested $not / $or / $or of 20-90 alternatives), walked through three layers: L1 bunpaginate.UsingColumn / UsingOffset on a harness table, L2 ledgerstore.GetTransactions / GetLogs / GetAccountsWithVolumes, L3 the v2 and v1 HTTP list handlers with ?cursor=. Rows are served by the harness's mini SQL engine. Oracle: following next from the first page yields the filtered collection once, in order, every page but the last full, termination; previous of page i is page i-1 and the first page has none; every statement of the walk carries the filter of the first request (the token stands for the same query). Non-trivial = a walk of >=3 pages, or with a filter, or with a backward step; distinct by (layer, list, sizes, filter, ids)."
 	c.Assumptions = []string{"PostgreSQL is replaced by a mini engine that evaluates WHERE conjuncts / ORDER BY / LIMIT / OFFSET of the narrow statement shapes bun emits here; unknown shapes abort the case as a harness error", "static collection (no concurrent inserts)"}
 	runProp(t, c, func(rt *rapid.T) {
 		n := rapid.IntRange(0, 40).Draw(rt, "n")
@@ -136,11 +136,11 @@ func TestC17(t *testing.T) {
 		}
 		filter := ""
 		if !strings.HasPrefix(layer, "L1") && !strings.Contains(layer, "logs") {
-			filter = rapid.SampledFrom([]string{"", "", "reference", "metadata", "not", "and-not", "or"}).Draw(rt, "filter")
+			filter = rapid.SampledFrom([]string{"", "", "reference", "metadata", "not", "and-not", "or", "or-many"}).Draw(rt, "filter")
 			if strings.Contains(layer, "accounts") && filter == "reference" {
 				filter = "metadata"
 			}
-			if strings.Contains(layer, "-v1-") && (filter == "not" || filter == "and-not" || filter == "or") {
+			if strings.Contains(layer, "-v1-") && (filter == "not" || filter == "and-not" || filter == "or" || filter == "or-many") {
 				filter = "metadata" // the v1 query parameters cannot express composite filters
 			}
 		}
@@ -168,7 +168,7 @@ func TestC17(t *testing.T) {
 				md = `{"k":"v"}`
 			}
 			switch filter {
-			case "reference", "metadata", "and-not", "or":
+			case "reference", "metadata", "and-not", "or", "or-many":
 				match = tag // and-not: k=v and not k2=x (no row has k2); or: k=v or k=w (no row has k=w)
 			case "not":
 				match = !tag
@@ -219,6 +219,10 @@ func TestC17(t *testing.T) {
 		var w c17Walker
 		var want []string
 		var qb query.Builder
+		nAlt := 0
+		if filter == "or-many" {
+			nAlt = rapid.IntRange(20, 90).Draw(rt, "alternatives")
+		}
 		switch filter {
 		case "reference":
 			qb = query.Match("reference", "r1")
@@ -230,6 +234,13 @@ func TestC17(t *testing.T) {
 			qb = query.And(query.Match("metadata[k]", "v"), query.Not(query.Match("metadata[k2]", "x")))
 		case "or":
 			qb = query.Or(query.Match("metadata[k]", "v"), query.Match("metadata[k]", "w"))
+		case "or-many":
+			// a long filter: the token that stands for the query grows with it
+			alts := []query.Builder{query.Match("metadata[k]", "v")}
+			for i := 0; i < nAlt; i++ {
+				alts = append(alts, query.Match("metadata[k]", fmt.Sprintf("no-such-value-%03d", i)))
+			}
+			qb = query.Or(alts...)
 		}
 		filterBody := ""
 		switch filter {
@@ -243,6 +254,12 @@ func TestC17(t *testing.T) {
 			filterBody = `{"$and":[{"$match":{"metadata[k]":"v"}},{"$not":{"$match":{"metadata[k2]":"x"}}}]}`
 		case "or":
 			filterBody = `{"$or":[{"$match":{"metadata[k]":"v"}},{"$match":{"metadata[k]":"w"}}]}`
+		case "or-many":
+			parts := []string{`{"$match":{"metadata[k]":"v"}}`}
+			for i := 0; i < nAlt; i++ {
+				parts = append(parts, fmt.Sprintf(`{"$match":{"metadata[k]":"no-such-value-%03d"}}`, i))
+			}
+			filterBody = `{"$or":[` + strings.Join(parts, ",") + `]}`
 		}
 		be := httpsim.NewFakeBackend()
 		be.Override = func(name string) backend.Ledger {
